@@ -197,7 +197,7 @@ type c15Ack struct {
 }
 
 type c15COp struct {
-	K     string   `json:"k"` // pub | sub | unsub
+	K     string   `json:"k"` // pub | sub | unsub | repub (re-send the connection's latest QoS1 PUBLISH with DUP=1 and the same id if a PUBACK is outstanding) | reuse (a new PUBLISH under the packet id of the latest QoS1 PUBLISH once that is acknowledged)
 	GapMs int      `json:"gap_ms,omitempty"`
 	ID    string   `json:"id,omitempty"`
 	T     string   `json:"t,omitempty"`
@@ -244,6 +244,8 @@ type c15Scenario struct {
 	WaitReady  bool           `json:"wait_ready"`
 	Limit      int            `json:"limit,omitempty"`
 	DropTopics []string       `json:"drop_topics,omitempty"`
+	DropNth    []int          `json:"drop_nth,omitempty"` // the publish pipeline drops the n-th packet handed to it (1-based)
+	Members    []string       `json:"members,omitempty"`  // cyclic plan of the cluster member look-ups: "" no peers | err | errnil | empty | peer | peer-down | peers2
 	PipeYield  bool           `json:"pipe_yield,omitempty"`
 	NetBuf     int            `json:"net_buf,omitempty"`
 	Seg        [2]int         `json:"seg"`
@@ -570,6 +572,63 @@ func c15Gen(rng *sim.Rand, tier string) interface{} {
 	if rng.Bool(0.15) {
 		sc.DropTopics = []string{topic()}
 	}
+	// client-side QoS1 retries: a publish limiter and/or a pipeline that drops
+	// single packets leave a PUBLISH without PUBACK; the client sends it again
+	// with DUP=1 and the same packet id (MQTT 3.1.1 4.4), and later uses that
+	// id, once acknowledged, for a new message
+	if rng.Bool(0.3) {
+		switch rng.Intn(10) {
+		case 0, 1, 2, 3:
+			sc.Limit = rng.Pick(1, 1, 2, 3)
+		case 4, 5, 6:
+			sc.Limit = 0
+			for j := 0; j < rng.Range(1, 3); j++ {
+				sc.DropNth = append(sc.DropNth, rng.Range(1, 6))
+			}
+		case 7, 8:
+			sc.Limit = rng.Pick(1, 2, 3)
+			sc.DropNth = append(sc.DropNth, rng.Range(1, 5))
+		}
+		var cand []int
+		for i := range sc.Clients {
+			if sc.Clients[i].End == "" && sc.Clients[i].EndWhen == "" && sc.Clients[i].StallMs >= 0 {
+				cand = append(cand, i)
+			}
+		}
+		if len(cand) == 0 {
+			cand = append(cand, rng.Intn(len(sc.Clients)))
+		}
+		for x := 0; x < rng.Pick(1, 1, 2); x++ {
+			cl := &sc.Clients[cand[rng.Intn(len(cand))]]
+			nx := len(cl.Ops)
+			for j := 0; j < rng.Range(1, 3); j++ {
+				cl.Ops = append(cl.Ops, c15COp{K: "pub", ID: fmt.Sprintf("x%d", nx+j), GapMs: rng.Pick(0, 0, 30), T: topic(), Q: 1})
+			}
+			for j := 0; j < rng.Range(1, 2); j++ {
+				cl.Ops = append(cl.Ops, c15COp{K: "repub", GapMs: rng.Pick(300, 1100, 2100)})
+			}
+			if rng.Bool(0.6) {
+				cl.Ops = append(cl.Ops, c15COp{K: "reuse", ID: fmt.Sprintf("x%d", nx+5), GapMs: rng.Pick(0, 50, 1100), T: topic(), Q: 1})
+				if rng.Bool(0.5) {
+					cl.Ops = append(cl.Ops, c15COp{K: "repub", GapMs: rng.Pick(300, 1100)})
+				}
+			}
+		}
+	}
+	// cluster member look-ups that fail or name peers while messages that are
+	// not yet distributed are published
+	if rng.Bool(0.35) {
+		for j := 0; j < rng.Range(1, 4); j++ {
+			sc.Members = append(sc.Members, rng.PickStr("", "err", "err", "errnil", "empty", "peer", "peer-down", "peers2"))
+		}
+		for i := range sc.Publishers {
+			for j := range sc.Publishers[i].Pubs {
+				if rng.Bool(0.7) {
+					sc.Publishers[i].Pubs[j].Dist = false
+				}
+			}
+		}
+	}
 	sc.PipeYield = rng.Bool(0.3)
 	sc.NetBuf = rng.Pick(0, 0, 4096, 512, 128)
 	if overflow && (sc.NetBuf == 0 || sc.NetBuf > 512) {
@@ -788,6 +847,8 @@ func c15Merge(a, b c15Exp) c15Exp {
 // ---- run state ----------------------------------------------------------------
 
 type c15Msg struct {
+	mfault  string // the member look-up made while this message was being published failed this way
+	local   bool   // published as not yet distributed: the broker looks its peers up
 	key     string
 	topic   string
 	q       int
@@ -811,21 +872,24 @@ type c15Rx struct {
 type c15Pkt struct{ issued, recv int }
 
 type c15CPub struct {
-	id      string
-	topic   string
-	q       int
-	mid     uint16
-	payload string
-	tick    int
-	acks    int
-	seen    int
-	dropped bool
+	id       string
+	topic    string
+	q        int
+	mid      uint16
+	payload  string
+	tick     int
+	queued   int // transmissions handed to the connection's writer (the first one and DUP=1 retries)
+	sent     int // transmissions written to the connection
+	acks     int
+	seen     int // times the pipeline was handed this payload
+	seenDrop int // ... and dropped it
 }
 
 type c15Out struct {
 	pkt  packets.ControlPacket
 	kind string // sub | pub | puback | ping
 	rx   *c15Rx
+	cp   *c15CPub
 }
 
 type c15Cl struct {
@@ -874,8 +938,8 @@ type c15Cl struct {
 	pingMarks []int
 	pingTicks []int
 	pingsRecv int
-	pubs      map[uint16]*c15CPub
-	pubOrder  []uint16
+	pubs      map[uint16]*c15CPub // latest PUBLISH of this connection under a packet id
+	pubList   []*c15CPub
 	nextMid   uint16
 	qcap      int
 	subFail   bool
@@ -968,6 +1032,8 @@ type c15PipeRec struct {
 	payload string
 	qos     int
 	mid     uint16
+	dup     bool
+	dropped bool
 }
 
 type c15H struct {
@@ -997,6 +1063,10 @@ type c15H struct {
 	churn    bool            // some connection ended, was superseded or unsubscribed
 	qcap     int
 	probeOut int // polls the current broker-lock probe has been outstanding
+	dropNth  map[int]bool
+	nMember  int    // cluster member look-ups so far
+	mFaults  int    // ... that were answered with an error or an odd list
+	curIssue *c15Msg // message whose HTTP publish is being handled right now (the handler is called synchronously)
 	probeRun bool
 	locked   bool
 }
@@ -1008,6 +1078,70 @@ func (h *c15H) violate(class, format string, a ...interface{}) {
 	}
 	h.once[class] = true
 	h.r.Violate(class, format, a...)
+}
+
+// memberURL is the broker's view of the cluster: the URLs of the publish
+// endpoints of the other members. The scenario's plan makes look-ups fail the
+// ways the real one (memberURLFunc) can: error from the cluster store or an
+// unparsable member status (empty list + error), a member without peer URL
+// (nil + error), or it names peers that are reachable or not.
+func (h *c15H) memberURL(egName, name string) ([]string, error) {
+	mode := ""
+	if n := len(h.sc.Members); n > 0 {
+		mode = h.sc.Members[h.nMember%n]
+	}
+	h.nMember++
+	peer := func(i int) string {
+		return fmt.Sprintf("http://10.2.0.%d:2381/apis/v1/mqttproxy/%s/topics/publish", 10+i, name)
+	}
+	if mode != "" {
+		if h.curIssue != nil {
+			h.curIssue.mfault = mode
+		}
+		h.r.Eventf("member look-up #%d: %s", h.nMember, mode)
+	}
+	switch mode {
+	case "err":
+		h.mFaults++
+		h.r.Fault("cluster.member_lookup_error")
+		return []string{}, fmt.Errorf("c15: cluster get member list failed")
+	case "errnil":
+		h.mFaults++
+		h.r.Fault("cluster.member_without_peer_url")
+		return nil, fmt.Errorf("c15: easegress m2 has empty ClusterInitialAdvertisePeerURLs []")
+	case "empty":
+		h.r.Fault("cluster.member_list_empty")
+		return []string{}, nil
+	case "peer":
+		return []string{peer(0)}, nil
+	case "peer-down":
+		return []string{peer(1)}, nil
+	case "peers2":
+		return []string{peer(1), peer(0), peer(1)}, nil
+	}
+	return nil, nil
+}
+
+// c15Peers stands for the other members' admin APIs: 10.2.0.10 accepts the
+// transferred publish, every other address is unreachable.
+type c15Peers struct{ h *c15H }
+
+func (p c15Peers) RoundTrip(req *http.Request) (*http.Response, error) {
+	h := p.h
+	if req.Body != nil {
+		req.Body.Close()
+	}
+	if h.stopping {
+		return nil, fmt.Errorf("c15: run is over")
+	}
+	h.r.Yield("c15.peer")
+	if req.URL.Hostname() != "10.2.0.10" {
+		h.r.Fault("cluster.peer_unreachable")
+		return nil, fmt.Errorf("dial tcp %s: connect: connection refused", req.URL.Host)
+	}
+	h.r.Probe("mqtt.publish_transferred_to_peer")
+	return &http.Response{StatusCode: http.StatusOK, Status: "200 OK", Proto: "HTTP/1.1", ProtoMajor: 1, ProtoMinor: 1,
+		Header: http.Header{}, Body: http.NoBody, Request: req}, nil
 }
 
 // GetHandler implements context.MuxMapper: the only pipeline is the recording
@@ -1026,20 +1160,28 @@ func (h *c15H) Handle(ctx *context.Context) string {
 		return ""
 	}
 	p := req.PublishPacket()
-	rec := c15PipeRec{cid: req.Client().ClientID(), topic: p.TopicName, payload: string(p.Payload), qos: int(p.Qos), mid: p.MessageID}
+	rec := c15PipeRec{cid: req.Client().ClientID(), topic: p.TopicName, payload: string(p.Payload), qos: int(p.Qos), mid: p.MessageID, dup: p.Dup}
+	rec.dropped = h.drop[p.TopicName]
+	if h.dropNth[len(h.pipeSeen)+1] {
+		rec.dropped = true
+		h.r.Fault("pipeline.drops_nth_packet")
+	}
 	h.pipeSeen = append(h.pipeSeen, rec)
 	for _, cl := range h.clients {
 		if cl.spec.ID == rec.cid {
-			for _, mid := range cl.pubOrder {
-				if cl.pubs[mid].payload == rec.payload {
-					cl.pubs[mid].seen++
+			for _, cp := range cl.pubList {
+				if cp.payload == rec.payload {
+					cp.seen++
+					if rec.dropped {
+						cp.seenDrop++
+					}
 				}
 			}
 		}
 	}
 	h.progress++
-	h.r.Eventf("pipeline %s %s q%d id%d %q", rec.cid, rec.topic, rec.qos, rec.mid, rec.payload)
-	if h.drop[p.TopicName] {
+	h.r.Eventf("pipeline %s %s q%d id%d dup=%v drop=%v %q", rec.cid, rec.topic, rec.qos, rec.mid, rec.dup, rec.dropped, rec.payload)
+	if rec.dropped {
 		if resp, ok := ctx.GetOutputResponse().(*mqttprot.Response); ok {
 			resp.SetDrop()
 		}
@@ -1442,8 +1584,8 @@ func (h *c15H) runClient(cl *c15Cl) {
 
 func (h *c15H) pubIDs(cl *c15Cl) string {
 	var s []string
-	for _, mid := range cl.pubOrder {
-		s = append(s, fmt.Sprintf("%d(q%d)", mid, cl.pubs[mid].q))
+	for _, cp := range cl.pubList {
+		s = append(s, fmt.Sprintf("%d(q%d)", cp.mid, cp.q))
 	}
 	return strings.Join(s, ",")
 }
@@ -1671,6 +1813,10 @@ func (h *c15H) runWriter(cl *c15Cl) {
 			h.tick++
 			cl.pingMarks = append(cl.pingMarks, cl.ackSeq)
 			cl.pingTicks = append(cl.pingTicks, h.tick)
+		case "pub":
+			if o.cp != nil {
+				o.cp.sent++
+			}
 		}
 		if err := o.pkt.Write(cl.conn); err != nil {
 			if !h.stopping && !cl.ending && cl.lost == "" {
@@ -1859,23 +2005,58 @@ func (h *c15H) runScript(cl *c15Cl) {
 			if !h.subscribe(cl, op.Subs, op.K == "unsub") {
 				return
 			}
-		case "pub":
+		case "repub":
+			// MQTT 3.1.1 4.4: the sender of a QoS1 PUBLISH that has seen no PUBACK
+			// sends it again with DUP=1 and the same packet id
+			var cp *c15CPub
+			for _, x := range cl.pubList {
+				if x.q == 1 {
+					cp = x
+				}
+			}
+			if cp == nil || cp.acks >= cp.queued || cp.queued >= 4 {
+				continue
+			}
+			pp := packets.NewControlPacket(packets.Publish).(*packets.PublishPacket)
+			pp.MessageID, pp.Qos, pp.TopicName, pp.Payload, pp.Dup = cp.mid, 1, cp.topic, []byte(cp.payload), true
+			cp.queued++
+			r.Probe("mqtt.client_publish_retry_with_dup")
+			r.Eventf("client %s -> PUBLISH %s q1 id%d DUP (transmission %d, %d PUBACKs so far)", cl.name, cp.topic, cp.mid, cp.queued, cp.acks)
+			h.enqueue(cl, c15Out{pkt: pp, kind: "pub", cp: cp})
+		case "pub", "reuse":
 			if !c15ValidTopic(op.T) || op.Q < 0 || op.Q > 1 || op.ID == "" {
 				continue
 			}
 			pp := packets.NewControlPacket(packets.Publish).(*packets.PublishPacket)
-			cl.nextMid++
-			pp.MessageID = cl.nextMid
+			reused := false
+			if op.K == "reuse" && op.Q == 1 {
+				// a new message under the packet id of the latest QoS1 PUBLISH, which
+				// is free again once every transmission of that one was acknowledged
+				var last *c15CPub
+				for _, x := range cl.pubList {
+					if x.q == 1 {
+						last = x
+					}
+				}
+				if last != nil && last.acks >= 1 && last.acks >= last.queued && cl.pubs[last.mid] == last {
+					pp.MessageID, reused = last.mid, true
+					r.Probe("mqtt.client_publish_reuses_acknowledged_packet_id")
+				}
+			}
+			if !reused {
+				cl.nextMid++
+				pp.MessageID = cl.nextMid
+			}
 			pp.Qos = byte(op.Q)
 			pp.TopicName = op.T
-			payload := fmt.Sprintf("cp:%s:%s:%d", cl.name, op.ID, pp.MessageID)
+			payload := fmt.Sprintf("cp:%s:%s:%d:%d", cl.name, op.ID, pp.MessageID, len(cl.pubList))
 			pp.Payload = []byte(payload)
 			h.tick++
-			cp := &c15CPub{id: op.ID, topic: op.T, q: op.Q, mid: pp.MessageID, payload: payload, tick: h.tick, dropped: h.drop[op.T]}
+			cp := &c15CPub{id: op.ID, topic: op.T, q: op.Q, mid: pp.MessageID, payload: payload, tick: h.tick, queued: 1}
 			cl.pubs[pp.MessageID] = cp
-			cl.pubOrder = append(cl.pubOrder, pp.MessageID)
+			cl.pubList = append(cl.pubList, cp)
 			r.Eventf("client %s -> PUBLISH %s q%d id%d", cl.name, op.T, op.Q, pp.MessageID)
-			h.enqueue(cl, c15Out{pkt: pp, kind: "pub"})
+			h.enqueue(cl, c15Out{pkt: pp, kind: "pub", cp: cp})
 		}
 	}
 	h.endConn(cl)
@@ -1910,7 +2091,13 @@ func (h *c15H) issue(p *c15Pub, k int) {
 	w := httptest.NewRecorder()
 	h.r.Eventf("http publish %s q%d %q", p.T, p.Q, c15Short(key))
 	h.progress++
+	m.local = !p.Dist
+	h.curIssue = m
 	h.broker.httpTopicsPublishHandler(w, req)
+	h.curIssue = nil
+	if m.mfault != "" {
+		h.r.Probe("mqtt.http_publish_with_member_lookup_" + m.mfault)
+	}
 	if w.Code != http.StatusOK {
 		h.violate("C15.http-publish-rejected", "publish of topic %q qos %d answered with status %d: %s", p.T, p.Q, w.Code, w.Body.String())
 	}
@@ -2048,9 +2235,8 @@ func (h *c15H) satisfied() bool {
 				return false
 			}
 		}
-		for _, mid := range cl.pubOrder {
-			cp := cl.pubs[mid]
-			if cp.q == 1 && cp.acks == 0 && !cp.dropped && (cp.seen > 0 || h.sc.Limit == 0) {
+		for _, cp := range cl.pubList {
+			if cp.q == 1 && (cp.acks < cp.seen-cp.seenDrop || (h.sc.Limit == 0 && cp.seen < cp.queued)) {
 				return false
 			}
 		}
@@ -2199,6 +2385,11 @@ func (h *c15H) evaluate() {
 					r.Probe("mqtt.qos0_dropped_queue_full")
 					continue
 				}
+				if m.local && (m.mfault == "err" || m.mfault == "errnil" || (m.mfault == "" && h.mFaults > 0)) && hungMatched == "" {
+					h.violate("C15.local-delivery-lost-on-member-lookup-failure", "QoS0 message %q on %q, published as not yet distributed, never reached eligible client %s (at most %d packets can have been waiting in its outbound queue of capacity %d); the cluster member look-up of this publish: %q, failed look-ups in this run: %d; local delivery must not depend on the peers\n%s",
+						c15Short(m.key), m.topic, cl.name, occ, cl.qcap, m.mfault, h.mFaults, h.describe(m))
+					continue
+				}
 				if hungMatched != "" {
 					h.violate("C15.fanout-blocked-by-unresponsive-subscriber", "QoS0 message %q on %q never reached eligible client %s (subscriber %s stopped reading while staying connected; at most %d packets can have been waiting in %s's outbound queue of capacity %d)\n%s",
 						c15Short(m.key), m.topic, cl.name, hungMatched, occ, cl.name, cl.qcap, h.describe(m))
@@ -2218,6 +2409,9 @@ func (h *c15H) evaluate() {
 			case hungMatched != "":
 				class = "C15.fanout-blocked-by-unresponsive-subscriber"
 				why = "subscriber " + hungMatched + " stopped reading while staying connected"
+			case m.local && (m.mfault == "err" || m.mfault == "errnil" || (m.mfault == "" && h.mFaults > 0)):
+				class = "C15.local-delivery-lost-on-member-lookup-failure"
+				why = fmt.Sprintf("published as not yet distributed; the cluster member look-up of this publish: %q, failed look-ups in this run: %d; local delivery must not depend on the peers", m.mfault, h.mFaults)
 			case h.churn:
 			case e.lower:
 				class = "C15.overlap-lower-qos-filter-shadows"
@@ -2239,38 +2433,59 @@ func (h *c15H) evaluate() {
 					cl.name, rx.count, c15Short(key), rx.mid, rx.pol.Omit+1)
 			}
 		}
-		for _, mid := range cl.pubOrder {
-			cp := cl.pubs[mid]
-			seen := 0
+		for _, cp := range cl.pubList {
+			seen, seenDrop := 0, 0
 			for _, rec := range h.pipeSeen {
 				if rec.cid == cl.spec.ID && rec.payload == cp.payload {
 					seen++
+					if rec.dropped {
+						seenDrop++
+					}
 					if rec.topic != cp.topic || rec.qos != cp.q || (cp.q == 1 && rec.mid != cp.mid) {
 						h.violate("C15.client-publish-altered", "client %s PUBLISH %q q%d id%d reached the pipeline as %q q%d id%d", cl.name, cp.topic, cp.q, cp.mid, rec.topic, rec.qos, rec.mid)
 					}
 				}
 			}
-			if seen > 1 {
-				h.violate("C15.backend-duplicate", "client %s PUBLISH id %d was handed to the pipeline %d times", cl.name, cp.mid, seen)
+			if seen > cp.sent {
+				h.violate("C15.backend-duplicate", "client %s PUBLISH id %d was sent %d time(s) but handed to the pipeline %d times", cl.name, cp.mid, cp.sent, seen)
 			}
 			if cp.q != 1 {
 				continue
 			}
-			if seen == 0 {
+			if cp.sent > 1 {
+				r.Probe("mqtt.client_qos1_publish_sent_more_than_once")
+			}
+			if cp.acks > 0 && seen == 0 {
+				// the PUBACK tells the client that the broker took the message over
+				h.violate("C15.client-publish-acked-not-forwarded", "client %s QoS1 PUBLISH id %d on %q (%d transmission(s), the retries with DUP=1) got %d PUBACK(s) but was never handed to the publish pipeline (limiter: %d/s)", cl.name, cp.mid, cp.topic, cp.sent, cp.acks, h.sc.Limit)
+				continue
+			}
+			if seen < cp.sent {
 				if h.sc.Limit > 0 {
 					r.Probe("mqtt.client_publish_refused_by_limiter")
+					if seen > 0 && cp.sent > 1 {
+						r.Probe("mqtt.client_publish_retry_passed_after_limiter_drop")
+					}
+				} else {
+					h.violate("C15.client-publish-not-forwarded", "client %s QoS1 PUBLISH id %d on %q was sent %d time(s) (retries with DUP=1 and the same id) but handed to the publish pipeline only %d time(s) (no limiter configured)", cl.name, cp.mid, cp.topic, cp.sent, seen)
 					continue
 				}
-				h.violate("C15.client-publish-not-forwarded", "client %s QoS1 PUBLISH id %d on %q never reached the publish pipeline (no limiter configured)", cl.name, cp.mid, cp.topic)
-				continue
 			}
-			if cp.dropped {
+			if seenDrop > 0 {
 				r.Probe("mqtt.client_publish_dropped_by_pipeline")
-				continue
+				if seen > seenDrop {
+					r.Probe("mqtt.client_publish_retry_passed_after_pipeline_drop")
+				}
 			}
-			if cp.acks == 0 {
-				h.violate("C15.client-publish-not-acked", "client %s QoS1 PUBLISH id %d on %q was handed to the pipeline but no PUBACK with id %d arrived", cl.name, cp.mid, cp.topic, cp.mid)
-			} else {
+			if cp.acks > seen {
+				// more PUBACKs than hand-overs although it was handed over: a
+				// broker that answers a retry of a message it already took over
+				// without handing it over again; not judged
+				r.Probe("mqtt.client_publish_more_pubacks_than_handovers")
+			}
+			if cp.acks < seen-seenDrop {
+				h.violate("C15.client-publish-not-acked", "client %s QoS1 PUBLISH id %d on %q was handed to the pipeline %d time(s) (%d dropped there) but only %d PUBACK(s) with id %d arrived", cl.name, cp.mid, cp.topic, seen, seenDrop, cp.acks, cp.mid)
+			} else if seen > seenDrop {
 				r.Probe("mqtt.client_qos1_publish_acked")
 			}
 		}
@@ -2357,7 +2572,15 @@ func c15Exec(r *sim.Run, sci interface{}) {
 		spec.ClientPublishLimit = &RateLimit{RequestRate: sc.Limit, TimePeriod: 1}
 	}
 	h.store = &c15Store{in: newStorage(nil), gets: map[string][]c15Get{}, last: map[string]string{}}
-	h.broker = newBroker(spec, h.store, h, func(string, string) ([]string, error) { return nil, nil })
+	h.dropNth = map[int]bool{}
+	for _, n := range sc.DropNth {
+		h.dropNth[n] = true
+	}
+	// the peers of the (mocked) cluster are reached through http.DefaultClient
+	oldTransport := http.DefaultClient.Transport
+	http.DefaultClient.Transport = c15Peers{h}
+	defer func() { http.DefaultClient.Transport = oldTransport }()
+	h.broker = newBroker(spec, h.store, h, h.memberURL)
 	if h.broker == nil {
 		h.net.Shutdown()
 		panic("c15: newBroker returned nil")
